@@ -21,41 +21,135 @@ set_option linter.unusedSimpArgs false
 namespace Bio.GoSrcLemmas
 open Bio Bio.GoRt Bio.Generated
 
+/-! ## `takeThroughH`: what a consumer that may keep state sees -/
+
+theorem takeThroughH_cons {α : Type} (h : List α → Bool) (acc : List α) (x : α) (xs : List α) :
+    takeThroughH h acc (x :: xs)
+      = if h (acc ++ [x]) then takeThroughH h (acc ++ [x]) xs else acc ++ [x] := rfl
+
+theorem takeThroughH_singleton {α : Type} (h : List α → Bool) (acc : List α) (x : α) :
+    takeThroughH h acc [x] = acc ++ [x] := by
+  simp only [takeThroughH]; split <;> rfl
+
+/-- the items handed over extend `acc` by a prefix of `xs`, and the consumer said "go on" after every
+item but the last -/
+theorem takeThroughH_spec {α : Type} (h : List α → Bool) (xs : List α) : ∀ (acc : List α),
+    ∃ t, takeThroughH h acc xs = acc ++ t ∧ t <+: xs
+      ∧ ∀ j, j + 1 < t.length → h (acc ++ t.take (j + 1)) = true := by
+  induction xs with
+  | nil => intro acc; exact ⟨[], by simp [takeThroughH], List.prefix_refl _, by simp⟩
+  | cons x xs ih =>
+    intro acc
+    by_cases hx : h (acc ++ [x]) = true
+    · obtain ⟨t, h1, h2, h3⟩ := ih (acc ++ [x])
+      refine ⟨x :: t, by simp [takeThroughH, hx, h1], by simpa using h2, ?_⟩
+      intro j hj
+      cases j with
+      | zero => simpa using hx
+      | succ j =>
+        have := h3 j (by simpa using hj)
+        simpa using this
+    · refine ⟨[x], by simp [takeThroughH, hx], by simp, ?_⟩
+      intro j hj; simp at hj
+
+theorem takeThroughH_prefix {α : Type} (h : List α → Bool) (xs : List α) : takeThroughH h [] xs <+: xs := by
+  obtain ⟨t, h1, h2, _⟩ := takeThroughH_spec h xs []
+  rw [h1]; simpa using h2
+
+/-- every call but the last returned `true` … -/
+theorem takeThroughH_go_on {α : Type} (h : List α → Bool) (xs : List α) (i : Nat)
+    (hi : i + 1 < (takeThroughH h [] xs).length) : h ((takeThroughH h [] xs).take (i + 1)) = true := by
+  obtain ⟨t, h1, _, h3⟩ := takeThroughH_spec h xs []
+  rw [h1] at hi ⊢
+  simpa using h3 i (by simpa using hi)
+
+/-- … so a call that returned `false` was the last one -/
+theorem takeThroughH_stop {α : Type} (h : List α → Bool) (xs : List α) (i : Nat)
+    (hi : i < (takeThroughH h [] xs).length) (hf : h ((takeThroughH h [] xs).take (i + 1)) = false) :
+    i + 1 = (takeThroughH h [] xs).length := by
+  by_cases hlt : i + 1 < (takeThroughH h [] xs).length
+  · rw [takeThroughH_go_on h xs i hlt] at hf; cases hf
+  · omega
+
+/-- the verdict on the LAST item of the run does not matter: consumers that agree on every shorter
+history hand over the same items -/
+theorem takeThroughH_congr {α : Type} (h g : List α → Bool) (xs : List α) : ∀ (acc : List α),
+    (∀ l, l.length < acc.length + xs.length → h l = g l) → takeThroughH h acc xs = takeThroughH g acc xs := by
+  induction xs with
+  | nil => intro acc _; rfl
+  | cons x xs ih =>
+    intro acc hl
+    cases xs with
+    | nil => rw [takeThroughH_singleton, takeThroughH_singleton]
+    | cons y ys =>
+      rw [takeThroughH_cons h, takeThroughH_cons g, hl (acc ++ [x]) (by simp),
+        ih (acc ++ [x]) (fun l hlen => hl l (by simp at hlen ⊢; omega))]
+
+/-- a consumer without state: it judges the current item (the last of the history) -/
+def lastH {α : Type} (f : α → Bool) : List α → Bool :=
+  fun l => match l.getLast? with | some x => f x | none => true
+
+@[simp] theorem lastH_append_singleton {α : Type} (f : α → Bool) (l : List α) (x : α) :
+    lastH f (l ++ [x]) = f x := by
+  simp [lastH]
+
+/-- the bridge: for a consumer without state, `takeThroughH` is `takeThrough` -/
+theorem takeThroughH_lastH_acc {α : Type} (f : α → Bool) (xs : List α) : ∀ (acc : List α),
+    takeThroughH (lastH f) acc xs = acc ++ takeThrough (fun x => !f x) xs := by
+  induction xs with
+  | nil => intro acc; simp [takeThroughH, takeThrough]
+  | cons x xs ih =>
+    intro acc
+    rw [takeThroughH, lastH_append_singleton, takeThrough_cons, ih]
+    cases f x <;> simp
+
+theorem takeThroughH_lastH {α : Type} (f : α → Bool) (xs : List α) :
+    takeThroughH (lastH f) [] xs = takeThrough (fun x => !f x) xs := by
+  rw [takeThroughH_lastH_acc]; rfl
+
+theorem takeThrough_map {α β : Type} (p : β → Bool) (g : α → β) (l : List α) :
+    takeThrough p (l.map g) = (takeThrough (fun a => p (g a)) l).map g := by
+  induction l with
+  | nil => rfl
+  | cons a l ih =>
+    rw [List.map_cons, takeThrough_cons, takeThrough_cons, ih]
+    cases p (g a) <;> simp
+
 /-! ## Iterators: the generic `for { x, err := r.read(); … }` loop -/
 
-/-- what the `for { x, err := r.read(); … }` loop of an `iter()` closure computes, by recursion on the fuel -/
-def iterSpec {ρ σ : Type} (read : σ → Option ((Option ρ × GoErr) × σ)) (f : Option ρ × GoErr → Bool) :
-    Nat → σ → Option (List (Option ρ × GoErr))
-  | 0, _ => none
-  | fuel + 1, s =>
+/-- what the `for { x, err := r.read(); … }` loop of an `iter()` closure computes, by recursion on the
+fuel; `acc` = the items handed over so far, `h` = the consumer, asked about the whole history -/
+def iterSpec {ρ σ : Type} (read : σ → Option ((Option ρ × GoErr) × σ)) (h : List (Option ρ × GoErr) → Bool) :
+    Nat → List (Option ρ × GoErr) → σ → Option (List (Option ρ × GoErr))
+  | 0, _, _ => none
+  | fuel + 1, acc, s =>
     match read s with
     | none => none
     | some ((x, err), s') =>
       if err != GoErr.nil then
-        (if err != GoErr.eof then some [(none, err)] else some [])
-      else if f (x, GoErr.nil) then (iterSpec read f fuel s').map ((x, GoErr.nil) :: ·)
-      else some [(x, GoErr.nil)]
+        (if err != GoErr.eof then some (acc ++ [(none, err)]) else some acc)
+      else if h (acc ++ [(x, GoErr.nil)]) then iterSpec read h fuel (acc ++ [(x, GoErr.nil)]) s'
+      else some (acc ++ [(x, GoErr.nil)])
 
 abbrev IterSt (ρ σ : Type) := Option (List (Option ρ × GoErr)) × List (Option ρ × GoErr) × σ × Bool
 
-def iterStep {ρ σ : Type} (f : Option ρ × GoErr → Bool) (st : IterSt ρ σ) (r : (Option ρ × GoErr) × σ) :
+def iterStep {ρ σ : Type} (h : List (Option ρ × GoErr) → Bool) (st : IterSt ρ σ) (r : (Option ρ × GoErr) × σ) :
     ForInStep (IterSt ρ σ) :=
   if r.1.2 != GoErr.nil then
     (if r.1.2 != GoErr.eof then .done (none, st.2.1 ++ [(none, r.1.2)], r.2, false)
      else .done (none, st.2.1, r.2, false))
-  else if f (r.1.1, GoErr.nil) then .yield (none, st.2.1 ++ [(r.1.1, GoErr.nil)], r.2, st.2.2.2)
+  else if h (st.2.1 ++ [(r.1.1, GoErr.nil)]) then .yield (none, st.2.1 ++ [(r.1.1, GoErr.nil)], r.2, st.2.2.2)
   else .done (some (st.2.1 ++ [(r.1.1, GoErr.nil)]), st.2.1 ++ [(r.1.1, GoErr.nil)], r.2, st.2.2.2)
 
-theorem iter_loop {ρ σ : Type} (read : σ → Option ((Option ρ × GoErr) × σ)) (f : Option ρ × GoErr → Bool)
+theorem iter_loop {ρ σ : Type} (read : σ → Option ((Option ρ × GoErr) × σ)) (h : List (Option ρ × GoErr) → Bool)
     (body : Nat → IterSt ρ σ → Option (ForInStep (IterSt ρ σ)))
     (fin : IterSt ρ σ → Option (List (Option ρ × GoErr)))
-    (hbody : ∀ i st, body i st = (read st.2.2.1).bind fun r => some (iterStep f st r))
+    (hbody : ∀ i st, body i st = (read st.2.2.1).bind fun r => some (iterStep h st r))
     (hfin : ∀ st, fin st = match st.1 with
       | some r => some r
       | none => if st.2.2.2 = true then none else some st.2.1)
     (l : List Nat) : ∀ (log : List (Option ρ × GoErr)) (s : σ),
-    (forIn l ((none, log, s, true) : IterSt ρ σ) body).bind fin
-      = (iterSpec read f l.length s).map (log ++ ·) := by
+    (forIn l ((none, log, s, true) : IterSt ρ σ) body).bind fin = iterSpec read h l.length log s := by
   induction l with
   | nil => intro log s; simp [iterSpec, hfin]
   | cons a l ih =>
@@ -70,50 +164,58 @@ theorem iter_loop {ρ σ : Type} (read : σ → Option ((Option ρ × GoErr) × 
       · by_cases h2 : (err != GoErr.eof) = true
         · simp [h1, h2, hfin]
         · simp [h1, h2, hfin]
-      · by_cases h3 : f (x, GoErr.nil) = true
-        · simp only [h1, h3, if_false, Bool.not_true, Bool.false_eq_true, if_true, Option.bind_some]
-          have := ih (log ++ [(x, GoErr.nil)]) s'
-          rw [this]
-          cases iterSpec read f l.length s' <;> simp
+      · by_cases h3 : h (log ++ [(x, GoErr.nil)]) = true
+        · simp only [h1, h3, if_false, Bool.false_eq_true, if_true]
+          exact ih (log ++ [(x, GoErr.nil)]) s'
         · simp [h1, h3, hfin]
 
 theorem fasta_iter_spec (hF : GoSrc.fasta_iter_Found = true) (fuel : Nat) (src : Bytes) (e : Ending)
-    (f : Option (Bytes × Bytes) × GoErr → Bool) :
-    GoSrc.fasta_iter fuel src e f = iterSpec (fun s => GoSrc.fasta_read s e) f fuel src := by
+    (h : List (Option (Bytes × Bytes) × GoErr) → Bool) :
+    GoSrc.fasta_iter fuel src e h = iterSpec (fun s => GoSrc.fasta_read s e) h fuel [] src := by
   first
   | exact absurd hF (by decide)
   | (unfold GoSrc.fasta_iter
      simp only [Option.pure_def, Option.bind_eq_bind]
-     refine (iter_loop (fun s => GoSrc.fasta_read s e) f _ _ ?_ ?_ (List.range fuel) [] src).trans ?_
+     refine (iter_loop (fun s => GoSrc.fasta_read s e) h _ _ ?_ ?_ (List.range fuel) [] src).trans ?_
      · intro i st
        cases GoSrc.fasta_read st.2.2.1 e with
        | none => rfl
        | some r =>
          obtain ⟨⟨x, err⟩, s'⟩ := r
-         cases err <;> cases h : f (x, GoErr.nil) <;> simp [iterStep, h]
+         cases err <;> cases hh : h (st.2.1 ++ [(x, GoErr.nil)]) <;> simp [iterStep, hh]
      · intro st
        rcases st with ⟨_ | r, log, s, _ | _⟩ <;> rfl
-     · rw [List.length_range]
-       cases iterSpec (fun s => GoSrc.fasta_read s e) f fuel src <;> simp)
+     · rw [List.length_range])
 
 theorem fastq_iter_spec (hF : GoSrc.fastq_iter_Found = true) (fuel : Nat) (ls : List Bytes) (e : Ending)
-    (f : Option (Bytes × Bytes × Bytes) × GoErr → Bool) :
-    GoSrc.fastq_iter fuel ls e f = iterSpec (fun s => GoSrc.fastq_read s e) f fuel ls := by
+    (h : List (Option (Bytes × Bytes × Bytes) × GoErr) → Bool) :
+    GoSrc.fastq_iter fuel ls e h = iterSpec (fun s => GoSrc.fastq_read s e) h fuel [] ls := by
   first
   | exact absurd hF (by decide)
   | (unfold GoSrc.fastq_iter
      simp only [Option.pure_def, Option.bind_eq_bind]
-     refine (iter_loop (fun s => GoSrc.fastq_read s e) f _ _ ?_ ?_ (List.range fuel) [] ls).trans ?_
+     refine (iter_loop (fun s => GoSrc.fastq_read s e) h _ _ ?_ ?_ (List.range fuel) [] ls).trans ?_
      · intro i st
        cases GoSrc.fastq_read st.2.2.1 e with
        | none => rfl
        | some r =>
          obtain ⟨⟨x, err⟩, s'⟩ := r
-         cases err <;> cases h : f (x, GoErr.nil) <;> simp [iterStep, h]
+         cases err <;> cases hh : h (st.2.1 ++ [(x, GoErr.nil)]) <;> simp [iterStep, hh]
      · intro st
        rcases st with ⟨_ | r, log, s, _ | _⟩ <;> rfl
-     · rw [List.length_range]
-       cases iterSpec (fun s => GoSrc.fastq_read s e) f fuel ls <;> simp)
+     · rw [List.length_range])
+
+/-- the loop asks the consumer only about histories that end in a record `(x, nil)`: its verdict on
+the error item is ignored -/
+theorem iterSpec_congr {ρ σ : Type} (read : σ → Option ((Option ρ × GoErr) × σ))
+    (h g : List (Option ρ × GoErr) → Bool) (hg : ∀ l x, h (l ++ [(x, GoErr.nil)]) = g (l ++ [(x, GoErr.nil)])) :
+    ∀ (fuel : Nat) (acc : List (Option ρ × GoErr)) (s : σ), iterSpec read h fuel acc s = iterSpec read g fuel acc s := by
+  intro fuel
+  induction fuel with
+  | zero => intro acc s; rfl
+  | succ fuel ih =>
+    intro acc s
+    simp only [iterSpec, hg, ih]
 
 /-! ### FASTA / FASTQ: the loop over the translated `read` is the model decode, cut by the consumer -/
 
@@ -140,29 +242,28 @@ theorem decodeSrc_cons' (e : Ending) (b : UInt8) (rest : Bytes) :
   · simp [h]
 
 theorem fasta_iterSpec (hR : GoSrc.fasta_read_Found = true) (e : Ending)
-    (f : Option (Bytes × Bytes) × GoErr → Bool) :
-    ∀ (fuel : Nat) (src : Bytes), src.length < fuel →
-      iterSpec (fun s => GoSrc.fasta_read s e) f fuel src
-        = some ((takeThrough (fun it => !f (faRaw it)) (Fasta.decodeSrc e src)).map faRaw) := by
+    (h : List (Option (Bytes × Bytes) × GoErr) → Bool) :
+    ∀ (fuel : Nat) (acc : List (Option (Bytes × Bytes) × GoErr)) (src : Bytes), src.length < fuel →
+      iterSpec (fun s => GoSrc.fasta_read s e) h fuel acc src
+        = some (takeThroughH h acc ((Fasta.decodeSrc e src).map faRaw)) := by
   intro fuel
   induction fuel with
-  | zero => intro src h; omega
+  | zero => intro acc src h; omega
   | succ fuel ih =>
-    intro src hx
+    intro acc src hx
     cases src with
     | nil =>
       rw [iterSpec, fasta_read_nil hR, Fasta.decodeSrc_nil]
-      cases e <;> simp [endErr, takeThrough, faRaw]
+      cases e <;> simp [endErr, takeThroughH, faRaw]
     | cons b rest =>
       rw [iterSpec, fasta_read_cons hR, decodeSrc_cons']
       have hlt := fasta_readOne_rest_lt b rest
       by_cases h2 : (Fasta.readOne b rest).2 = [] ∧ e = Ending.fail
-      · simp [h2, takeThrough, faRaw]
-      · simp only [h2, if_false, takeThrough_cons]
-        rw [ih _ (by simp only [List.length_cons] at hx hlt; omega)]
-        cases hf : f (some ((Fasta.readOne b rest).1.name, (Fasta.readOne b rest).1.seq), GoErr.nil) <;>
-          simp [faRaw, hf]
-
+      · simp [h2, takeThroughH, faRaw]
+      · simp only [h2, if_false, List.map_cons, takeThroughH]
+        rw [ih _ _ (by simp only [List.length_cons] at hx hlt; omega)]
+        simp [faRaw]
+        split <;> rename_i hh <;> simp [hh]
 
 def fqRaw : Item Fastq.Fq → Option (Bytes × Bytes × Bytes) × GoErr
   | .ok r => (some (r.name, r.seq, r.quals), GoErr.nil)
@@ -176,42 +277,31 @@ def fqItem : Option (Bytes × Bytes × Bytes) × GoErr → Item Fastq.Fq
   cases it <;> rfl
 
 theorem fastq_iterSpec (hR : GoSrc.fastq_read_Found = true) (e : Ending)
-    (f : Option (Bytes × Bytes × Bytes) × GoErr → Bool) :
-    ∀ (fuel : Nat) (ls : List Bytes), ls.length < fuel →
-      iterSpec (fun s => GoSrc.fastq_read s e) f fuel ls
-        = some ((takeThrough (fun it => !f (fqRaw it)) (Fastq.fromLines e ls)).map fqRaw) := by
+    (h : List (Option (Bytes × Bytes × Bytes) × GoErr) → Bool) :
+    ∀ (fuel : Nat) (acc : List (Option (Bytes × Bytes × Bytes) × GoErr)) (ls : List Bytes), ls.length < fuel →
+      iterSpec (fun s => GoSrc.fastq_read s e) h fuel acc ls
+        = some (takeThroughH h acc ((Fastq.fromLines e ls).map fqRaw)) := by
   intro fuel
   induction fuel with
-  | zero => intro ls h; omega
+  | zero => intro acc ls h; omega
   | succ fuel ih =>
-    intro ls hls
+    intro acc ls hls
     rw [iterSpec, fastq_read_spec hR]
     rcases fastqStep_cases e ls with ⟨_, h1, h2⟩ | ⟨name, sq, pl, ql, rest, hls', _, h1, h2⟩ | ⟨_, _, h1, h2⟩
-    · rw [h1, h2]; cases e <;> simp [endErr, takeThrough, fqRaw]
+    · rw [h1, h2]; cases e <;> simp [endErr, takeThroughH, fqRaw]
     · rw [h1, h2]
-      simp only [takeThrough_cons]
-      rw [ih rest (by subst hls'; simp only [List.length_cons] at hls; omega)]
-      cases hf : f (some (name, sq, ql), GoErr.nil) <;> simp [fqRaw, hf]
+      simp only [List.map_cons, takeThroughH]
+      rw [ih _ rest (by subst hls'; simp only [List.length_cons] at hls; omega)]
+      simp [fqRaw]
+      split <;> rename_i hh <;> simp [hh]
     · rw [h2]
       generalize fastqStep e ls = r at h1
       obtain ⟨⟨a, b⟩, c⟩ := r
       simp only [Prod.mk.injEq] at h1
       obtain ⟨rfl, rfl⟩ := h1
-      simp [takeThrough, fqRaw]
-
+      simp [takeThroughH, fqRaw]
 
 /-! ### The statements about the translated closures -/
-
-/-- the loop asks the consumer only about `(x, nil)` items: its verdict on the error item is ignored -/
-theorem iterSpec_congr {ρ σ : Type} (read : σ → Option ((Option ρ × GoErr) × σ))
-    (f g : Option ρ × GoErr → Bool) (h : ∀ x, f (x, GoErr.nil) = g (x, GoErr.nil)) :
-    ∀ (fuel : Nat) (s : σ), iterSpec read f fuel s = iterSpec read g fuel s := by
-  intro fuel
-  induction fuel with
-  | zero => intro s; rfl
-  | succ fuel ih =>
-    intro s
-    simp only [iterSpec, h, ih]
 
 /-- every call but the last returned `true`, hence a declined item is the last one -/
 theorem declined_is_last {α : Type} (f : α → Bool) (L : List α) (h : ∀ x ∈ L.dropLast, f x = true)
@@ -226,42 +316,83 @@ theorem declined_is_last {α : Type} (f : α → Bool) (L : List α) (h : ∀ x 
     rw [hf] at this; cases this
   · omega
 
-/-- FASTA, the log itself: the items of the model decode, as `(*Fasta, error)` pairs, up to and
-including the first one the consumer declined.  The error item (always the last item of the decode)
-is `(nil, err)` with `err` neither `nil` nor `io.EOF`. -/
+/-- FASTA, every consumer (it may keep state: it is asked about the history of items handed to it):
+the log is the model decode, as `(*Fasta, error)` pairs, up to and including the first item after
+which the consumer said stop.  The error item (always the last item of the decode) is `(nil, err)`
+with `err` neither `nil` nor `io.EOF`; the verdict on it is ignored by the Go code and, being the
+verdict on the last item, irrelevant for `takeThroughH` (`takeThroughH_congr`). -/
 theorem fasta_iter_raw (hI : GoSrc.fasta_iter_Found = true) (hR : GoSrc.fasta_read_Found = true)
+    (fuel : Nat) (src : Bytes) (e : Ending) (h : List (Option (Bytes × Bytes) × GoErr) → Bool)
+    (hf : src.length + 1 ≤ fuel) :
+    GoSrc.fasta_iter fuel src e h = some (takeThroughH h [] ((Fasta.decodeSrc e src).map faRaw)) := by
+  rw [fasta_iter_spec hI, fasta_iterSpec hR e h fuel [] src (by omega)]
+
+/-- … as model items -/
+theorem fasta_iter_items (hI : GoSrc.fasta_iter_Found = true) (hR : GoSrc.fasta_read_Found = true)
+    (fuel : Nat) (src : Bytes) (e : Ending) (h : List (Option (Bytes × Bytes) × GoErr) → Bool)
+    (hf : src.length + 1 ≤ fuel) :
+    (GoSrc.fasta_iter fuel src e h).map (·.map faItem)
+      = some ((takeThroughH h [] ((Fasta.decodeSrc e src).map faRaw)).map faItem) := by
+  rw [fasta_iter_raw hI hR fuel src e h hf]; rfl
+
+theorem fasta_iter_total (hI : GoSrc.fasta_iter_Found = true) (hR : GoSrc.fasta_read_Found = true)
+    (fuel : Nat) (src : Bytes) (e : Ending) (h : List (Option (Bytes × Bytes) × GoErr) → Bool)
+    (hf : src.length + 1 ≤ fuel) : (GoSrc.fasta_iter fuel src e h).isSome = true := by
+  rw [fasta_iter_raw hI hR fuel src e h hf]; rfl
+
+/-- C18 for every consumer: the log is a prefix of the uninterrupted run; after every item but the
+last the consumer said "go on"; so an item after which it said "stop" is the last one logged -/
+theorem fasta_iter_stops (hI : GoSrc.fasta_iter_Found = true) (hR : GoSrc.fasta_read_Found = true)
+    (fuel : Nat) (src : Bytes) (e : Ending) (h : List (Option (Bytes × Bytes) × GoErr) → Bool)
+    (hf : src.length + 1 ≤ fuel) :
+    ∃ L, GoSrc.fasta_iter fuel src e h = some L ∧ L <+: (Fasta.decodeSrc e src).map faRaw
+      ∧ L.map faItem <+: Fasta.decodeSrc e src
+      ∧ (∀ i, i + 1 < L.length → h (L.take (i + 1)) = true)
+      ∧ (∀ i, i < L.length → h (L.take (i + 1)) = false → i + 1 = L.length) := by
+  refine ⟨_, fasta_iter_raw hI hR fuel src e h hf, takeThroughH_prefix _ _, ?_,
+    takeThroughH_go_on _ _, takeThroughH_stop _ _⟩
+  have := (takeThroughH_prefix h ((Fasta.decodeSrc e src).map faRaw)).map faItem
+  simpa [Function.comp_def] using this
+
+/-- the answer to `yield(nil, err)` is never looked at: consumers that agree on every history ending
+in a record get the same log (any fuel) -/
+theorem fasta_iter_congr (hI : GoSrc.fasta_iter_Found = true)
+    (fuel : Nat) (src : Bytes) (e : Ending) (h g : List (Option (Bytes × Bytes) × GoErr) → Bool)
+    (hg : ∀ l x, h (l ++ [(x, GoErr.nil)]) = g (l ++ [(x, GoErr.nil)])) :
+    GoSrc.fasta_iter fuel src e h = GoSrc.fasta_iter fuel src e g := by
+  rw [fasta_iter_spec hI, fasta_iter_spec hI, iterSpec_congr _ h g hg]
+
+/-- a consumer WITHOUT state (`lastH f`: it judges the current item): `takeThrough` -/
+theorem fasta_iter_raw_pure (hI : GoSrc.fasta_iter_Found = true) (hR : GoSrc.fasta_read_Found = true)
     (fuel : Nat) (src : Bytes) (e : Ending) (f : Option (Bytes × Bytes) × GoErr → Bool)
-    (h : src.length + 1 ≤ fuel) :
-    GoSrc.fasta_iter fuel src e f
+    (hf : src.length + 1 ≤ fuel) :
+    GoSrc.fasta_iter fuel src e (lastH f)
       = some ((takeThrough (fun it => !f (faRaw it)) (Fasta.decodeSrc e src)).map faRaw) := by
-  rw [fasta_iter_spec hI, fasta_iterSpec hR e f fuel src (by omega)]
+  rw [fasta_iter_raw hI hR fuel src e _ hf, takeThroughH_lastH, takeThrough_map]
 
 theorem fasta_iter_log (hI : GoSrc.fasta_iter_Found = true) (hR : GoSrc.fasta_read_Found = true)
     (fuel : Nat) (src : Bytes) (e : Ending) (f : Option (Bytes × Bytes) × GoErr → Bool)
-    (h : src.length + 1 ≤ fuel) :
-    (GoSrc.fasta_iter fuel src e f).map (·.map faItem)
+    (hf : src.length + 1 ≤ fuel) :
+    (GoSrc.fasta_iter fuel src e (lastH f)).map (·.map faItem)
       = some (takeThrough (fun it => !f (faRaw it)) (Fasta.decodeSrc e src)) := by
-  rw [fasta_iter_raw hI hR fuel src e f h]
+  rw [fasta_iter_raw_pure hI hR fuel src e f hf]
   simp [Function.comp_def]
 
-theorem fasta_iter_total (hI : GoSrc.fasta_iter_Found = true) (hR : GoSrc.fasta_read_Found = true)
-    (fuel : Nat) (src : Bytes) (e : Ending) (f : Option (Bytes × Bytes) × GoErr → Bool)
-    (h : src.length + 1 ≤ fuel) : (GoSrc.fasta_iter fuel src e f).isSome = true := by
-  rw [fasta_iter_raw hI hR fuel src e f h]; rfl
-
 theorem fasta_iter_all (hI : GoSrc.fasta_iter_Found = true) (hR : GoSrc.fasta_read_Found = true)
-    (fuel : Nat) (src : Bytes) (e : Ending) (h : src.length + 1 ≤ fuel) :
+    (fuel : Nat) (src : Bytes) (e : Ending) (hf : src.length + 1 ≤ fuel) :
     (GoSrc.fasta_iter fuel src e (fun _ => true)).map (·.map faItem) = some (Fasta.decodeSrc e src) := by
-  rw [fasta_iter_log hI hR fuel src e _ h]
+  have h1 : GoSrc.fasta_iter fuel src e (fun _ => true) = GoSrc.fasta_iter fuel src e (lastH fun _ => true) :=
+    fasta_iter_congr hI fuel src e _ _ (by intro l x; simp)
+  rw [h1, fasta_iter_log hI hR fuel src e _ hf]
   exact congrArg some (takeThrough_false _)
 
-theorem fasta_iter_stops (hI : GoSrc.fasta_iter_Found = true) (hR : GoSrc.fasta_read_Found = true)
+theorem fasta_iter_stops_pure (hI : GoSrc.fasta_iter_Found = true) (hR : GoSrc.fasta_read_Found = true)
     (fuel : Nat) (src : Bytes) (e : Ending) (f : Option (Bytes × Bytes) × GoErr → Bool)
-    (h : src.length + 1 ≤ fuel) :
-    ∃ L, GoSrc.fasta_iter fuel src e f = some L ∧ L.map faItem <+: Fasta.decodeSrc e src
+    (hf : src.length + 1 ≤ fuel) :
+    ∃ L, GoSrc.fasta_iter fuel src e (lastH f) = some L ∧ L.map faItem <+: Fasta.decodeSrc e src
       ∧ (∀ x ∈ L.dropLast, f x = true)
       ∧ (∀ i x, L[i]? = some x → f x = false → i + 1 = L.length) := by
-  refine ⟨_, fasta_iter_raw hI hR fuel src e f h, ?_, ?_⟩
+  refine ⟨_, fasta_iter_raw_pure hI hR fuel src e f hf, ?_, ?_⟩
   · simpa [Function.comp_def] using takeThrough_isPrefix (fun it => !f (faRaw it)) (Fasta.decodeSrc e src)
   · have hd : ∀ x ∈ ((takeThrough (fun it => !f (faRaw it)) (Fasta.decodeSrc e src)).map faRaw).dropLast,
         f x = true := by
@@ -271,47 +402,73 @@ theorem fasta_iter_stops (hI : GoSrc.fasta_iter_Found = true) (hR : GoSrc.fasta_
       simpa using takeThrough_dropLast (fun it => !f (faRaw it)) (Fasta.decodeSrc e src) it hit
     exact ⟨hd, declined_is_last f _ hd⟩
 
-/-- the consumer's answer to `yield(nil, err)` is never looked at (any fuel) -/
-theorem fasta_iter_congr (hI : GoSrc.fasta_iter_Found = true)
-    (fuel : Nat) (src : Bytes) (e : Ending) (f g : Option (Bytes × Bytes) × GoErr → Bool)
-    (h : ∀ x, f (x, GoErr.nil) = g (x, GoErr.nil)) :
-    GoSrc.fasta_iter fuel src e f = GoSrc.fasta_iter fuel src e g := by
-  rw [fasta_iter_spec hI, fasta_iter_spec hI, iterSpec_congr _ f g h]
-
-/-- FASTQ, the log itself. -/
+/-- FASTQ, every consumer. -/
 theorem fastq_iter_raw (hI : GoSrc.fastq_iter_Found = true) (hR : GoSrc.fastq_read_Found = true)
+    (fuel : Nat) (ls : List Bytes) (e : Ending) (h : List (Option (Bytes × Bytes × Bytes) × GoErr) → Bool)
+    (hf : ls.length + 1 ≤ fuel) :
+    GoSrc.fastq_iter fuel ls e h = some (takeThroughH h [] ((Fastq.fromLines e ls).map fqRaw)) := by
+  rw [fastq_iter_spec hI, fastq_iterSpec hR e h fuel [] ls (by omega)]
+
+theorem fastq_iter_items (hI : GoSrc.fastq_iter_Found = true) (hR : GoSrc.fastq_read_Found = true)
+    (fuel : Nat) (ls : List Bytes) (e : Ending) (h : List (Option (Bytes × Bytes × Bytes) × GoErr) → Bool)
+    (hf : ls.length + 1 ≤ fuel) :
+    (GoSrc.fastq_iter fuel ls e h).map (·.map fqItem)
+      = some ((takeThroughH h [] ((Fastq.fromLines e ls).map fqRaw)).map fqItem) := by
+  rw [fastq_iter_raw hI hR fuel ls e h hf]; rfl
+
+theorem fastq_iter_total (hI : GoSrc.fastq_iter_Found = true) (hR : GoSrc.fastq_read_Found = true)
+    (fuel : Nat) (ls : List Bytes) (e : Ending) (h : List (Option (Bytes × Bytes × Bytes) × GoErr) → Bool)
+    (hf : ls.length + 1 ≤ fuel) : (GoSrc.fastq_iter fuel ls e h).isSome = true := by
+  rw [fastq_iter_raw hI hR fuel ls e h hf]; rfl
+
+theorem fastq_iter_stops (hI : GoSrc.fastq_iter_Found = true) (hR : GoSrc.fastq_read_Found = true)
+    (fuel : Nat) (ls : List Bytes) (e : Ending) (h : List (Option (Bytes × Bytes × Bytes) × GoErr) → Bool)
+    (hf : ls.length + 1 ≤ fuel) :
+    ∃ L, GoSrc.fastq_iter fuel ls e h = some L ∧ L <+: (Fastq.fromLines e ls).map fqRaw
+      ∧ L.map fqItem <+: Fastq.fromLines e ls
+      ∧ (∀ i, i + 1 < L.length → h (L.take (i + 1)) = true)
+      ∧ (∀ i, i < L.length → h (L.take (i + 1)) = false → i + 1 = L.length) := by
+  refine ⟨_, fastq_iter_raw hI hR fuel ls e h hf, takeThroughH_prefix _ _, ?_,
+    takeThroughH_go_on _ _, takeThroughH_stop _ _⟩
+  have := (takeThroughH_prefix h ((Fastq.fromLines e ls).map fqRaw)).map fqItem
+  simpa [Function.comp_def] using this
+
+theorem fastq_iter_congr (hI : GoSrc.fastq_iter_Found = true)
+    (fuel : Nat) (ls : List Bytes) (e : Ending) (h g : List (Option (Bytes × Bytes × Bytes) × GoErr) → Bool)
+    (hg : ∀ l x, h (l ++ [(x, GoErr.nil)]) = g (l ++ [(x, GoErr.nil)])) :
+    GoSrc.fastq_iter fuel ls e h = GoSrc.fastq_iter fuel ls e g := by
+  rw [fastq_iter_spec hI, fastq_iter_spec hI, iterSpec_congr _ h g hg]
+
+theorem fastq_iter_raw_pure (hI : GoSrc.fastq_iter_Found = true) (hR : GoSrc.fastq_read_Found = true)
     (fuel : Nat) (ls : List Bytes) (e : Ending) (f : Option (Bytes × Bytes × Bytes) × GoErr → Bool)
-    (h : ls.length + 1 ≤ fuel) :
-    GoSrc.fastq_iter fuel ls e f
+    (hf : ls.length + 1 ≤ fuel) :
+    GoSrc.fastq_iter fuel ls e (lastH f)
       = some ((takeThrough (fun it => !f (fqRaw it)) (Fastq.fromLines e ls)).map fqRaw) := by
-  rw [fastq_iter_spec hI, fastq_iterSpec hR e f fuel ls (by omega)]
+  rw [fastq_iter_raw hI hR fuel ls e _ hf, takeThroughH_lastH, takeThrough_map]
 
 theorem fastq_iter_log (hI : GoSrc.fastq_iter_Found = true) (hR : GoSrc.fastq_read_Found = true)
     (fuel : Nat) (ls : List Bytes) (e : Ending) (f : Option (Bytes × Bytes × Bytes) × GoErr → Bool)
-    (h : ls.length + 1 ≤ fuel) :
-    (GoSrc.fastq_iter fuel ls e f).map (·.map fqItem)
+    (hf : ls.length + 1 ≤ fuel) :
+    (GoSrc.fastq_iter fuel ls e (lastH f)).map (·.map fqItem)
       = some (takeThrough (fun it => !f (fqRaw it)) (Fastq.fromLines e ls)) := by
-  rw [fastq_iter_raw hI hR fuel ls e f h]
+  rw [fastq_iter_raw_pure hI hR fuel ls e f hf]
   simp [Function.comp_def]
 
-theorem fastq_iter_total (hI : GoSrc.fastq_iter_Found = true) (hR : GoSrc.fastq_read_Found = true)
-    (fuel : Nat) (ls : List Bytes) (e : Ending) (f : Option (Bytes × Bytes × Bytes) × GoErr → Bool)
-    (h : ls.length + 1 ≤ fuel) : (GoSrc.fastq_iter fuel ls e f).isSome = true := by
-  rw [fastq_iter_raw hI hR fuel ls e f h]; rfl
-
 theorem fastq_iter_all (hI : GoSrc.fastq_iter_Found = true) (hR : GoSrc.fastq_read_Found = true)
-    (fuel : Nat) (ls : List Bytes) (e : Ending) (h : ls.length + 1 ≤ fuel) :
+    (fuel : Nat) (ls : List Bytes) (e : Ending) (hf : ls.length + 1 ≤ fuel) :
     (GoSrc.fastq_iter fuel ls e (fun _ => true)).map (·.map fqItem) = some (Fastq.fromLines e ls) := by
-  rw [fastq_iter_log hI hR fuel ls e _ h]
+  have h1 : GoSrc.fastq_iter fuel ls e (fun _ => true) = GoSrc.fastq_iter fuel ls e (lastH fun _ => true) :=
+    fastq_iter_congr hI fuel ls e _ _ (by intro l x; simp)
+  rw [h1, fastq_iter_log hI hR fuel ls e _ hf]
   exact congrArg some (takeThrough_false _)
 
-theorem fastq_iter_stops (hI : GoSrc.fastq_iter_Found = true) (hR : GoSrc.fastq_read_Found = true)
+theorem fastq_iter_stops_pure (hI : GoSrc.fastq_iter_Found = true) (hR : GoSrc.fastq_read_Found = true)
     (fuel : Nat) (ls : List Bytes) (e : Ending) (f : Option (Bytes × Bytes × Bytes) × GoErr → Bool)
-    (h : ls.length + 1 ≤ fuel) :
-    ∃ L, GoSrc.fastq_iter fuel ls e f = some L ∧ L.map fqItem <+: Fastq.fromLines e ls
+    (hf : ls.length + 1 ≤ fuel) :
+    ∃ L, GoSrc.fastq_iter fuel ls e (lastH f) = some L ∧ L.map fqItem <+: Fastq.fromLines e ls
       ∧ (∀ x ∈ L.dropLast, f x = true)
       ∧ (∀ i x, L[i]? = some x → f x = false → i + 1 = L.length) := by
-  refine ⟨_, fastq_iter_raw hI hR fuel ls e f h, ?_, ?_⟩
+  refine ⟨_, fastq_iter_raw_pure hI hR fuel ls e f hf, ?_, ?_⟩
   · simpa [Function.comp_def] using takeThrough_isPrefix (fun it => !f (fqRaw it)) (Fastq.fromLines e ls)
   · have hd : ∀ x ∈ ((takeThrough (fun it => !f (fqRaw it)) (Fastq.fromLines e ls)).map fqRaw).dropLast,
         f x = true := by
@@ -320,12 +477,6 @@ theorem fastq_iter_stops (hI : GoSrc.fastq_iter_Found = true) (hR : GoSrc.fastq_
       obtain ⟨it, hit, rfl⟩ := hx
       simpa using takeThrough_dropLast (fun it => !f (fqRaw it)) (Fastq.fromLines e ls) it hit
     exact ⟨hd, declined_is_last f _ hd⟩
-
-theorem fastq_iter_congr (hI : GoSrc.fastq_iter_Found = true)
-    (fuel : Nat) (ls : List Bytes) (e : Ending) (f g : Option (Bytes × Bytes × Bytes) × GoErr → Bool)
-    (h : ∀ x, f (x, GoErr.nil) = g (x, GoErr.nil)) :
-    GoSrc.fastq_iter fuel ls e f = GoSrc.fastq_iter fuel ls e g := by
-  rw [fastq_iter_spec hI, fastq_iter_spec hI, iterSpec_congr _ f g h]
 
 /-! ## Writers -/
 
